@@ -120,9 +120,19 @@ func cmpE(id string) func(a, b E) int {
 		return magE
 	case "revmag":
 		return revMagE
+	case dom.Big32:
+		return big32E
+	case dom.Ext:
+		return extE
 	}
 	return natE
 }
+
+// results far outside the 32-bit range (see dom.Big32, dom.Ext)
+var (
+	big32E = func(a, b E) int { return dom.Cmp(dom.Big32)(int(a), int(b)) }
+	extE   = func(a, b E) int { return dom.Cmp(dom.Ext)(int(a), int(b)) }
+)
 
 // newFloat builds a container of float64 elements with the default constructors.
 func newFloat(c Cfg) any {
@@ -182,6 +192,8 @@ func New(c Cfg) any {
 		return newOf[any](c, cmpA(c.Cmp))
 	case "uint8":
 		return newOf[U](c, cmpU(c.Cmp))
+	case "wide":
+		return newOf[W](c, cmpW(c.Cmp))
 	}
 	f := cmpE(c.Cmp)
 	switch c.Kind {
@@ -347,6 +359,8 @@ func NewRunner(c Cfg) *Runner {
 		r.elemT = aType
 	case "uint8":
 		r.elemT = uType
+	case "wide":
+		r.elemT = wType
 	}
 	return r
 }
@@ -363,6 +377,8 @@ func (r *Runner) elemValue(x int) reflect.Value {
 		return reflect.Zero(aType) // the nil interface value
 	case r.elemT == uType:
 		return reflect.ValueOf(uelem(x))
+	case r.elemT == wType:
+		return reflect.ValueOf(welem(x))
 	case r.Cfg.Elem == "int13":
 		return reflect.ValueOf(E(mod(x, isoN)))
 	}
@@ -379,6 +395,11 @@ func toInt(v reflect.Value) int {
 		return rankA(v.Interface())
 	case reflect.Uint8:
 		return int(v.Uint())
+	case reflect.Struct:
+		if v.Type() == wType {
+			return int(v.Field(0).Int())
+		}
+		return 0
 	case reflect.Invalid:
 		return 0
 	case reflect.Float64, reflect.Float32:
@@ -453,6 +474,16 @@ func (r *Runner) norm1(method string, v reflect.Value) any {
 				xs[i] = int(v.Index(i).Uint())
 			}
 			if unordered {
+				sort.Ints(xs)
+			}
+			return fmt.Sprint(xs)
+		}
+		if v.Type().Elem() == wType {
+			xs := make([]int, v.Len())
+			for i := range xs {
+				xs[i] = int(v.Index(i).Field(0).Int())
+			}
+			if unordered || (r.Cfg.Kind == "binaryheap" || r.Cfg.Kind == "priorityqueue") && method == "ToJSON" {
 				sort.Ints(xs)
 			}
 			return fmt.Sprint(xs)
@@ -549,6 +580,9 @@ func (r *Runner) norm1(method string, v reflect.Value) any {
 		}
 		return "ptr:" + v.Type().String()
 	case reflect.Struct:
+		if v.Type() == wType {
+			return v.Field(0).Int() // the int image of the wide element
+		}
 		return "struct:" + v.Type().String()
 	}
 	return "kind:" + v.Kind().String()
@@ -809,6 +843,12 @@ func (r *Runner) makeFunc(ft reflect.Type, rw *raw) reflect.Value {
 					res = mod(x+y, 3) == mod(b, 3)
 				}
 				out[i] = reflect.ValueOf(res)
+			case ot == wType:
+				v := mod(a, 4)*y + mod(b, 3)*x + i
+				if mod(a, 3) == 0 {
+					v = mod(v, 4) // many-to-one
+				}
+				out[i] = reflect.ValueOf(welem(v))
 			case ot == aType || ot == uType || ot == eType && r.Cfg.Elem == "int13":
 				v := mod(a, 4)*y + mod(b, 3)*x + i
 				if mod(a, 3) == 0 {
